@@ -214,6 +214,92 @@ def h_two_center(ctx, spec="small", prop="symmetric", twin=False):
             ctx.oblige("conventions-permute-and-sign-rows-and-columns", ctx.eq(o2, np.array(exp, dtype=object if ctx.mode == "sym" else float), atol=1e-12), cls=spec)
 
 
+def _os_1d(x1, x2, n1, n2, w):
+    """Obara-Saika 1-D moment (normalised by sqrt(pi/(a+b))) with w = 1/(2(a+b))."""
+    S = {(0, 0): 1.0}
+    for i in range(n1 + 1):
+        for j in range(n2 + 1):
+            if (i, j) == (0, 0):
+                continue
+            if i > 0:
+                S[i, j] = x1 * S[i - 1, j] + w * ((i - 1) * S.get((i - 2, j), 0.0) + j * S.get((i - 1, j - 1), 0.0))
+            else:
+                S[i, j] = x2 * S[i, j - 1] + w * (i * S.get((i - 1, j - 1), 0.0) + (j - 1) * S.get((i, j - 2), 0.0))
+    return S[n1, n2]
+
+
+def _cart_powers(l):
+    return [(nx, ny, l - nx - ny) for nx in range(l, -1, -1) for ny in range(l - nx, -1, -1)]
+
+
+def h_two_center_values(ctx, spec="small", twin=False):
+    """Real compute_overlap against an independent assembly (Obara-Saika, documented normalisation, exp as the
+    same uninterpreted function); contributions may be dropped only where the path condition implies that their
+    exponential prefactor is below the 1e-15 screening threshold."""
+    import z3
+    import iodata.attrutils as A
+    import iodata.basis as B
+    import iodata.convert as C
+    import iodata.overlap as OV
+    from specs.basisfun import cart_norm
+    sp = SPEC_SMALL if spec == "small" else SPEC_GEN
+    if any("p" in ks for (_ic, _ls, ks, _e) in sp):
+        raise core.PathAbort("value oracle implemented for Cartesian shells")
+    with stubbed(OV, C, B, A):
+        r = ctx.real_array("r", (2, 3), lo=-8, hi=8)
+        ob = _two_center_basis(ctx, B, C, "a", sp, C.HORTON2_CONVENTIONS)
+        # contraction coefficients bounded away from zero: a dropped contribution is then numerically visible
+        for sh in ob.shells:
+            for dco in sh.coeffs.ravel().tolist():
+                ctx.assume(dco >= 0.5)
+        olp = OV.compute_overlap(ob, r)
+    # basis functions of the (segmented) basis in HORTON2 order: list of (centre, l, powers, [(alpha, D)])
+    funcs = []
+    for sh in ob.shells:
+        for c, l in enumerate(sh.angmoms):
+            for pw in _cart_powers(int(l)):
+                funcs.append((int(sh.icenter), int(l), pw, [(float(a), sh.coeffs[k, c]) for k, a in enumerate(sh.exponents)]))
+    n = len(funcs)
+    ctx.oblige("shape", olp.shape == (n, n), cls=spec)
+    sym = ctx.mode == "sym"
+    for i in range(n):
+        for j in range(i + 1):
+            ci, li, pi_, prims_i = funcs[i]
+            cj, lj, pj, prims_j = funcs[j]
+            A_, B_ = r[ci], r[cj]
+            dist2 = sum((A_[d] - B_[d]) * (A_[d] - B_[d]) for d in range(3))
+            total = 0.0
+            for (a, da) in prims_i:
+                for (b, db) in prims_j:
+                    at = a + b
+                    arg = dist2 * (-a * b / at)
+                    if sym:
+                        e = core.sym_exp(arg) if isinstance(arg, Sym) else math.exp(arg)
+                        if isinstance(e, Sym):
+                            # may this pair be dropped?  only if the path condition implies e < 1e-15
+                            if ctx._check(z3.Not(e.t <= core._realval(1e-15)), timeout=5000) == "unsat":
+                                continue
+                    else:
+                        e = math.exp(arg)
+                    w = 1.0 / (2 * at)
+                    contrib = da * db * cart_norm(a, pi_) * cart_norm(b, pj) * (math.pi / at) ** 1.5 * e
+                    for d in range(3):
+                        P = (a * A_[d] + b * B_[d]) / at
+                        contrib = contrib * _os_1d(P - A_[d], P - B_[d], pi_[d], pj[d], w)
+                    total = total + contrib
+            if twin and (i, j) == (n - 1, 0):
+                total = total + 1.0
+            if sym:
+                ok = ctx.approx(olp[i, j], total, 1e-7, atol=1e-13)
+                if ok is not True and ok is not False:
+                    # a counterexample must differ visibly (the exponential is an uninterpreted function)
+                    ok = ctx.near(olp[i, j], total, 1e-9)
+            else:
+                ok = abs(float(olp[i, j]) - float(total)) <= 1e-11 + 1e-8 * abs(float(total))
+            ctx.oblige("overlap-entry-is-the-exact-inner-product", ok, cls=f"{spec},l=({li},{lj})", detail=f"entry ({i},{j})",
+                       timeout_ms=30000)
+
+
 def h_reject(ctx):
     import iodata.basis as B
     import iodata.convert as C
@@ -262,6 +348,10 @@ def jobs(tier):
                 continue        # many exp terms: 10 min; thorough only
             out.append(job("C06", f"two-center[{spec},{prop}]", M, "h_two_center", dict(spec=spec, prop=prop),
                            budget_s=200 if tier == "quick" else 2400, max_validate=4))
+    out.append(job("C06", "two-center-values[small]", M, "h_two_center_values", dict(spec="small"), budget_s=600, max_validate=6,
+                   oblige_timeout_ms=30000))
+    out.append(job("C06", "two-center-values[twin]", M, "h_two_center_values", dict(spec="small", twin=True), expect="cex",
+                   budget_s=300, max_validate=0, stop_after_cex=2))
     out.append(job("C06", "two-center[twin]", M, "h_two_center", dict(spec="small", prop="symmetric", twin=True),
                    expect="cex", max_validate=0))
     out.append(job("C06", "reject", M, "h_reject", {}))
